@@ -125,8 +125,13 @@ class Intro:
         for s in BUILTIN_SCALARS:
             if s not in {t["name"] for t in types}:
                 types.append(self.type({"k": "scalar", "name": s, "desc": None}))
+        # the order of `types` is unspecified: shuffle it, and put the introspection system's own types (if included) anywhere
+        for i in range(len(types) - 1, 0, -1):
+            j = self.r.below(i + 1)
+            types[i], types[j] = types[j], types[i]
         if self.meta:
-            types += META_TYPES
+            at = self.r.below(len(types) + 1)
+            types[at:at] = META_TYPES
         sch = {}
         self.opt(sch, "description", text_of(schema_defs[0]["desc"]) if schema_defs else None)
         sch["queryType"] = {"name": roots["query"]}
